@@ -147,7 +147,8 @@ def compile_run_modules(mods, tag, batch=None):
         for attempt in range(12):
             if not ms:
                 break
-            head = "#![allow(dead_code, unused, non_camel_case_types, non_snake_case)]\n"
+            import runfam
+            head = runfam.HEAD
             lines = head.count("\n")
             starts, ids = [], []
             body = head
@@ -192,7 +193,7 @@ def compile_run_modules(mods, tag, batch=None):
     return results, failed
 
 
-def observe_runtime(ck, items, mode, laws, tag):
+def observe_runtime(ck, items, mode, laws, tag, transform=None):
     """items: list of (P, D, entry, shapetag, c).  Expands in-process, keeps what the REAL code accepts,
     de-duplicates on impl tokens, compiles + runs representatives, returns (events, meta)."""
     reqs = []
@@ -226,6 +227,8 @@ def observe_runtime(ck, items, mode, laws, tag):
         vals_of[rep] = vals
     dx.log("%s: %d items, %d accepted by the real expander, %d distinct impl classes to compile" %
            (tag, len(items), len(items) - n_rejected, len(mods)))
+    if transform:
+        mods = transform(mods)
     results, failed = compile_run_modules(mods, tag)
     events, meta = [], []
     for rep, members in reps:
@@ -442,3 +445,17 @@ def c17(tier):
     ck.cov["exhaustive"] = True
     ck.assumptions.append("decisive oracle for 'compiles' is rustc (metadata-only build with the genuine proc-macro)")
     return ck.finish()
+
+
+def hygiene_sample(tier, hook, rnd):
+    """C13: a seeded sample of the accepted comparison matrix, compiled under a renaming / shadowing transform and judged
+    by the same trace specification"""
+    ck = hook["ck"]
+    inner = dx.Check("C13tmp", tier)
+    cfgs, st = mc_cfgs(inner, tier, dsets="closed")
+    sample = rnd.sample(cfgs, 400 if tier == "quick" else 3000)
+    items = items_from_cfgs(sample, "quick", rotate=True)
+    events, meta, stats = observe_runtime(ck, items, "distinct", False, "c13cmp", transform=hook["transform"])
+    n, bad, jst = dx.tlc_judge("Trace_Cmp", "Trace_Cmp.cfg", events, "c13cmp", chunk=max(300, -(-len(events) // 8)))
+    ck.add_judge(n, jst)
+    report_run_bad(ck, "C13", bad, events, meta, "comparison impls behave differently (or stop compiling) under renaming / shadowing")
